@@ -82,7 +82,17 @@ def _literal_arg_types(args: list[ast.expr]) -> list[tuple[ast.Constant, object]
     and are never rewritten in place, so no already checked sub-tree can lose a type it
     relies on (compound arguments keep whatever an earlier attempt synthesized).
     """
-    return [(a, getattr(a, "type", _UNTYPED)) for a in args if type(a) is ast.Constant]
+    saved: list[tuple[ast.Constant, object]] = []
+    for a in args:
+        if type(a) is ast.Constant:
+            saved.append((a, getattr(a, "type", _UNTYPED)))
+        elif type(a) is ast.Call and not hasattr(a, "type"):
+            # A call that has not been checked yet is checked from scratch by every
+            # variant (checking returns a new node and leaves this one untyped), so its
+            # literal arguments must be seen as written each time, too: an earlier
+            # variant may have resolved the inner call successfully before failing itself
+            saved += _literal_arg_types(a.args)
+    return saved
 
 
 def _reset_literal_arg_types(saved: list[tuple[ast.Constant, object]]) -> None:
